@@ -30,7 +30,8 @@
   The merge tolerance is needed in the statement: two candidates closer than `relTol·D` are
   merged (that is the repair of defect D7), so "contains" can only hold up to it
   (`merge_needed_example`).
-  Not in the theorems: binary64 rounding (`i*dt/D*D ≠ i*dt`), see harness/props/c21.py.
+  Not in the theorems: binary64 rounding (`i*dt/D*D ≠ i*dt`, which can even exceed `D`: defect D7f,
+  repaired by the `setLast` statement — a no-op in exact arithmetic), see harness/props/c21.py.
 -/
 import EmuVerif.Proofs.TimeGrid
 import Mathlib.Data.Rat.Floor
@@ -146,13 +147,15 @@ theorem grid_spec (H : Hyp fl relTol D dt obs) :
   have htwo : 2 ≤ G.length := spec.two ⟨0, h0mem, D, hDmem, by
     have := mul_lt_mul_of_pos_right H.tol_lt_one H.D_pos
     linarith⟩
-  refine ⟨G, ?_, spec, by rw [spec.head, hhead], by rw [spec.last htwo, hlast], htwo⟩
+  have hGl : G.getLast? = some D := by rw [spec.last htwo, hlast]
+  refine ⟨G, ?_, spec, by rw [spec.head, hhead], hGl, htwo⟩
   unfold targetTimesOf
   simp only [hz1, hz2, Bool.false_eq_true, if_false, Bool.false_and]
   show (match mergeGrid (relTol * D) (sortedSet (cands fl D dt obs)) with
     | none => Except.error Err.indexError
-    | some g => Except.ok g) = Except.ok G
+    | some g => Except.ok (setLast D g)) = Except.ok G
   rw [hG]
+  simp only [setLast_of_getLast G D hGl]
 
 /-! ### The property theorems -/
 
@@ -215,22 +218,17 @@ theorem exact_of_sep (H : Hyp fl relTol D dt obs)
     (hG : targetTimesOf natC fl relTol D dt obs = .ok G) (hsep : Sep fl relTol D dt obs) :
     G = sortedSet (cands fl D dt obs) := by
   have hs := sortedSet_sorted (cands fl D dt obs)
-  have hgap : Gap (relTol * D) (sortedSet (cands fl D dt obs)) :=
-    List.Pairwise.imp_of_mem (fun {a b} ha hb hab =>
-      hsep a ((mem_sortedSet _ _).1 ha) b ((mem_sortedSet _ _).1 hb) hab) hs
-  have hne : sortedSet (cands fl D dt obs) ≠ [] :=
-    List.ne_nil_of_mem ((mem_sortedSet _ _).2 (cand_D H))
-  have hid := mergeGrid_id hne hgap
-  have hz1 : isZero dt = false := by simp [isZero, eqv, H.dt_pos, not_lt_of_gt H.dt_pos]
-  have hz2 : isZero D = false := by simp [isZero, eqv, H.D_pos, not_lt_of_gt H.D_pos]
-  unfold targetTimesOf at hG
-  simp only [hz1, hz2, Bool.false_eq_true, if_false, Bool.false_and] at hG
-  change (match mergeGrid (relTol * D) (sortedSet (cands fl D dt obs)) with
-    | none => Except.error Err.indexError
-    | some g => Except.ok g) = Except.ok G at hG
-  rw [hid] at hG
-  injection hG with e
-  exact e.symm
+  have spec := (spec_of H hG).1
+  refine sorted_ext _ _ (strictly_increasing H hG) hs (fun x => ⟨spec.sub x, fun hx => ?_⟩)
+  obtain ⟨y, hy, hyx⟩ := spec.cover x hx
+  have hyc := (mem_sortedSet _ _).1 (spec.sub y hy)
+  have hxc := (mem_sortedSet _ _).1 hx
+  rcases lt_trichotomy y x with h | h | h
+  · have := hsep y hyc x hxc h
+    rw [abs_le] at hyx; linarith
+  · rw [← h]; exact hy
+  · have := hsep x hxc y hyc h
+    rw [abs_le] at hyx; linarith
 
 theorem contains_dt_multiples_of_sep (H : Hyp fl relTol D dt obs)
     (hG : targetTimesOf natC fl relTol D dt obs = .ok G) (hsep : Sep fl relTol D dt obs)
